@@ -5,139 +5,590 @@ package main
 import (
 	"errors"
 	"fmt"
+	"regexp"
 	"strings"
+	"unicode/utf8"
 
 	"mvdan.cc/sh/v3/syntax"
 )
 
 // C10 — Parse errors are well-formed and incompleteness is reported.
 // Search leg: (1) every line-boundary prefix of every valid program parses or fails with an
-// IsIncomplete error; (2) every error position lies inside the input.
+// IsIncomplete error; (2) every error position lies inside the input, line/column agreeing with
+// the offset.  Tie: the here-document incompleteness model (Model/C10.lean): `hdoc` (one body),
+// `sched` (which newline reads the bodies).
 func init() { register("C10", c10) }
 
-func c10ErrPos(err error) (syntax.Pos, bool) {
+func c10ErrPos(err error) (syntax.Pos, string, bool) {
 	var pe syntax.ParseError
 	if errors.As(err, &pe) {
-		return pe.Pos, true
+		return pe.Pos, "ParseError", true
 	}
 	var le syntax.LangError
 	if errors.As(err, &le) {
-		return le.Pos, true
+		return le.Pos, "LangError", true
 	}
-	return syntax.Pos{}, false
+	return syntax.Pos{}, "", false
 }
 
-// c10Class names the construct that is open at the cut, for class witnesses of known findings.
-func c10Class(prefix string) string {
-	// quoted here-document still open: a `<<'X'`, `<<"X"` or `<<\X` operator whose body has not ended
-	lines := strings.Split(prefix, "\n")
-	for i, l := range lines {
-		for _, op := range []string{"<<-", "<<"} {
-			idx := strings.Index(l, op)
-			if idx < 0 || strings.HasPrefix(l[idx:], "<<<") {
-				continue
-			}
-			rest := strings.TrimLeft(l[idx+len(op):], " \t")
-			if rest == "" || !strings.ContainsAny(rest[:1], "'\"\\") {
-				continue
-			}
-			delim := strings.Trim(strings.FieldsFunc(rest, func(r rune) bool { return r == ' ' || r == ';' || r == '|' || r == ')' || r == '&' || r == '>' || r == '<' })[0], "'\"\\")
-			closed := false
-			for _, b := range lines[i+1:] {
-				if strings.TrimLeft(b, "\t") == delim {
-					closed = true
+// ---------------------------------------------------------------------------------------------
+// multi-line programs: every construct that can be open at a line boundary
+
+var c10Templates = []string{
+	// here-documents in every position
+	"cat <<E\nbody\nE\n", "cat <<E <<F\nbody\nE\nb2\nF\n", "cat <<E | foo\nbody\nE\n", "cat <<E &&\nbody\nE\nfoo\n",
+	"cat <<E && foo\nbody\nE\n", "cat <<'E' && foo\nbody $x\nE\n", "cat <<-E\n\tbody\n\tE\n", "cat <<-'E'\n\tbody\n\t\tmore\n\tE\n",
+	"cat <<\"E\"\n$(foo\nE\n", "cat <<\\E\nbody\nE\n", "echo $(cat <<E\nbody\nE\n)\n", "echo \"$(cat <<E\nbody\nE\n)\"\n",
+	"echo `cat <<E\nbody\nE\n`\n", "f() {\ncat <<E\nbody\nE\n}\n", "if true; then\ncat <<E\nbody\nE\nfi\n", "{ cat <<E; }\nbody\nE\n",
+	"( cat <<E )\nbody\nE\n", "(cat <<E\nbody\nE\n)\n", "cat <<E; echo \"a\nb\"\nbody\nE\n", "cat <<E; echo 'a\nb'\nbody\nE\n",
+	"cat <<E; x=$(echo\n)\nbody\nE\n", "cat <<E # comment\nbody\nE\n", "cat <<E \\\n-n\nbody\nE\n", "cat <<E\nbo\\\ndy\nE\n",
+	"cat <<E\n$(foo\n)\nE\n", "cat <<E\n${x:-a\nb}\nE\n", "cat <<E\n`foo\n`\nE\n", "cat <<E\n$((1+\n2))\nE\n", "cat <<E\n\nE\n", "cat <<E\nE\n",
+	"cat <<E; (( x ))\nbody\nE\n", "cat <<E; echo $(( 1 ))\nbody\nE\n", "cat <<E; a=(1 2)\nbody\nE\n", "cat <<E; echo ${x:-1}\nbody\nE\n",
+	"cat <<E; case x in x) ;; esac\nbody\nE\n", "cat <<E; for ((;;)); do :; done\nbody\nE\n", "while read l; do echo $l; done <<E\nbody\nE\n",
+	"cat <<E; [[ a = b ]]\nbody\nE\n", "cat <<E; let x=1\nbody\nE\n", "cat <<'E'; [[ a = b ]]\nbody\nE\n", "cat <<E && [[ -n x ]]\nbody\nE\n",
+	"cat <<E; { [[ a ]]; }\nbody\nE\n", "cat <<E; [[ a ]] # c\nbody\nE\n", "cat <<E; [[ a ]] >x\nbody\nE\n", "cat <<E; let x=1;\nbody\nE\n",
+	// quotes
+	"echo \"a\nb\"\n", "echo 'a\nb'\n", "echo $'a\nb'\n", "echo $\"a\nb\"\n", "x=\"a\nb\" foo\n", "export x=\"a\nb\"\n", "echo \"${x:-\"a\nb\"}\"\n",
+	"echo \"$(echo \"a\nb\")\"\n", "echo \"$(echo 'a\nb')\"\n", "echo \"`echo \"a\nb\"`\"\n", "eval \"foo\nbar\"\n", "foo <<<\"a\nb\"\n",
+	// substitutions and expansions
+	"echo $(foo\nbar)\n", "echo `foo\nbar`\n", "echo ${x:-a\nb}\n", "echo ${x/a\nb/c}\n", "echo ${x#a\nb}\n", "echo $((1 +\n2))\n", "echo $((\n1))\n",
+	"x=$(\nfoo\n)\n", "x=`\nfoo\n`\n", "$(\n)\n", "\"$(\n)\"\n", "`\n`\n", "echo $(echo `a\nb`)\n", "echo \"a $(b \"c $(d\ne)\")\"\n", "echo <(foo\nbar)\n",
+	"echo >(foo\n)\n", "echo ${x:-$(foo\nbar)}\n", "echo ${x:-`foo\nbar`}\n", "foo <<<$(a\nb)\n", "local x=$(\nfoo)\n", "echo $[1+\n2]\n",
+	// arithmetic, tests, arrays
+	"((1 +\n2))\n", "(( x = (1 +\n2) ))\n", "let x=1 \\\n y=2\n", "[[ a &&\nb ]]\n", "[[ a ||\nb ]]\n", "[[ (a &&\nb) ]]\n", "[[\na ]]\n", "[[ a\n]]\n",
+	"[[ a == b\n&& c ]]\n", "[[ ! a\n]]\n", "a=(\n1 2\n)\n", "a=(1\n2)\n", "a=([1]=x\n[2]=y)\n", "declare -a a=(\n1\n)\n", "a+=(\n1)\n", "declare x=(\n1)\n",
+	"a=(\n# c\n1 # d\n)\n",
+	// lists and pipelines
+	"foo &&\nbar\n", "foo ||\nbar\n", "foo |\nbar\n", "foo |&\nbar\n", "foo | \n\n bar\n", "foo && # c\nbar\n", "! foo |\nbar\n", "foo 2>&1 |\nbar\n",
+	"time foo |\nbar\n", "foo &\nbar &\n", "foo;\nbar;\n",
+	// compound commands
+	"if foo\nthen\nbar\nfi\n", "if foo; then\nbar\nelif x\nthen y\nelse\nz\nfi\n", "while foo\ndo\nbar\ndone\n", "until foo\ndo\nbar\ndone\n",
+	"for i\ndo\nbar\ndone\n", "for i in a b\ndo\nbar\ndone\n", "for i in a \\\nb\ndo\nbar\ndone\n", "for ((i=0;\ni<1;\ni++))\ndo\nbar\ndone\n",
+	"for ((;;)) {\nbar\n}\n", "select i in a\ndo\nbar\ndone\n", "case x in\nesac\n", "case x\nin\na) foo;;\nesac\n", "case x in\na)\nfoo\n;;\nb|c)\n;;\nesac\n",
+	"case x in\n(a) foo\nesac\n", "case x in a) foo ;&\nb) bar ;;&\nc) ;;\nesac\n", "case x in\n# c\na) ;; # d\nesac\n",
+	"f()\n{\nfoo\n}\n", "f() (\nfoo\n)\n", "function f\n{\nfoo\n}\n", "function f()\n{\nfoo\n}\n", "f() if a; then\nb\nfi\n", "{\nfoo\n}\n", "(\nfoo\n)\n",
+	"{ foo\n} >x\n", "coproc foo {\nbar\n}\n", "coproc {\nbar\n}\n", "@test \"x\" {\nfoo\n}\n", "f() {\n# only a comment\n:\n}\n",
+	// line continuations, comments, blank lines
+	"echo \\\nfoo\n", "echo foo\\\nbar\n", "echo \"foo\\\nbar\"\n", "echo foo \\\n\n", "foo >x \\\n2>y\n", "foo > \\\nx\n", "x=1 \\\ny=2 foo\n", "test a -a \\\nb\n",
+	"foo; # c\n# d\nbar\n", "#!/bin/sh\n\n\nfoo\n", "foo # a \\\nbar\n", "\n\n\n", "# only\n# comments\n",
+}
+
+var c10Wrappers = [][2]string{
+	{"", ""}, {"", ""}, {"if true; then\n", "fi\n"}, {"f() {\n", "}\n"}, {"while x; do\n", "done\n"}, {"(\n", ")\n"}, {"{\n", "}\n"},
+	{"x=$(\n", ")\n"}, {"case y in\nq)\n", ";;\nesac\n"}, {"for i in 1; do\n", "done\n"}, {"if a; then :\nelse\n", "fi\n"}, {"until a; do\n", "done &\n"},
+	{"echo \"$(\n", ")\"\n"}, {"{\n", "} | cat\n"}, {"function g {\n", "}\n"},
+}
+
+// c10Multi composes 1–3 templates (or generated here-document lines), optionally wrapped.
+func c10Multi(r *Rand) string {
+	var sb strings.Builder
+	for i, n := 0, 1+r.Intn(3); i < n; i++ {
+		var t string
+		if r.Chance(30) {
+			t = c10HdocProgram(r)
+		} else {
+			t = c10Templates[r.Intn(len(c10Templates))]
+		}
+		w := c10Wrappers[r.Intn(len(c10Wrappers))]
+		if strings.HasPrefix(t, "#!") || strings.HasPrefix(t, "@test") {
+			w = c10Wrappers[0]
+		}
+		sb.WriteString(w[0] + t + w[1])
+	}
+	return sb.String()
+}
+
+// c10Tails: what may follow the here-document word on its line; `items` is how the tie's model
+// sees it (t token, e preNested, l postNested, N "the token after this piece is lexed before the
+// postNested that follows").  From reading the parser: testClause and letClause lex the token
+// after them while the pending here-documents are still buried; arithmEnd, cmdSubst, subshell,
+// arrays, process substitutions restore first.
+var c10Tails = []struct{ text, items string }{
+	{"", ""},
+	{"; echo x", "ttt"},
+	{" | foo", "tt"},
+	{" -n", "t"},
+	{" >out", "tt"},
+	{"; [[ a = b ]]", "ttettttNl"},
+	{" && [[ -n x ]]", "ttetttNl"},
+	{"; let x=1", "ttetNl"},
+	{"; let x=1 y=2", "ttettNl"},
+	{"; (( x ))", "ttetl"},
+	{"; echo $(( 1 ))", "tttetl"},
+	{"; echo $(echo)", "tttettl"},
+	{"; a=(1 2)", "ttetttl"},
+	{"; ( foo )", "ttettl"},
+	{"; echo <(foo)", "tttettl"},
+	{"; echo `foo`", "tttettl"},
+	{"; { [[ a ]]; }", "tttettNltt"},
+	{"; [[ a ]] >x", "ttettNltt"},
+	{"; [[ a ]] # c", "ttettNl"},
+	{"; let x=1;", "ttetNlt"},
+	{"; echo \"x\"", "ttt"},
+}
+
+type c10HdocLine struct {
+	src    string // the whole program
+	line   string // first line without newline
+	items  string // model items of the first line including the final newline
+	quoted bool
+	stop   string
+	body   []string
+}
+
+// c10HdocGen builds `head <<[-]delim tail… \n body… delim\n`.
+func c10HdocGen(r *Rand, forTie bool) c10HdocLine {
+	var h c10HdocLine
+	heads := []struct{ text, items string }{{"cat ", "t"}, {"foo | cat ", "ttt"}, {"! cat ", "tt"}, {"x=1 cat ", "tt"}, {"{ cat ", "tt"}}
+	hd := heads[r.Intn(len(heads)-1)]
+	h.stop = r.Pick([]string{"E", "EOF", "X1"})
+	q := ""
+	if r.Chance(40) {
+		h.quoted = true
+		q = r.Pick([]string{"'", "\""})
+	}
+	items := hd.items + "h"
+	line := hd.text + "<<" + q + h.stop + q
+	for i, n := 0, r.Intn(3); i < n; i++ {
+		t := c10Tails[r.Intn(len(c10Tails))]
+		if t.text == " -n" && i > 0 {
+			continue
+		}
+		if strings.HasSuffix(line, "# c") || strings.HasSuffix(line, ";") {
+			break
+		}
+		if strings.HasPrefix(t.text, " ") && !strings.HasPrefix(t.text, " &&") && !strings.HasPrefix(t.text, " |") && i > 0 {
+			continue // arguments and redirections only directly after the word
+		}
+		line += t.text
+		items += t.items
+	}
+	items += "n"
+	// "N l X" → "X l": the token after the piece is lexed before postNested
+	for strings.Contains(items, "Nl") {
+		i := strings.Index(items, "Nl")
+		items = items[:i] + string(items[i+2]) + "l" + items[i+3:]
+	}
+	h.line, h.items = line, items
+	words := []string{"body", "foo bar", "x", "echo hi", "a b c"}
+	for i, n := 0, r.Intn(3); i < n; i++ {
+		h.body = append(h.body, r.Pick(words))
+	}
+	h.src = line + "\n"
+	for _, b := range h.body {
+		h.src += b + "\n"
+	}
+	h.src += h.stop + "\n"
+	return h
+}
+
+func c10HdocProgram(r *Rand) string {
+	h := c10HdocGen(r, false)
+	if r.Chance(30) {
+		return h.src + "echo after\n"
+	}
+	return h.src
+}
+
+// ---------------------------------------------------------------------------------------------
+
+var c10BuriedRe = regexp.MustCompile(`(\]\]|\blet\b[^;|&()<>]*)[ \t]*(#.*)?$`)
+
+// c10Class names the known class a failing cut belongs to, or "".
+// The error is "unclosed here-document" and no line of its body has been read: every line from
+// the one holding the `<<` to the end of the prefix either ends in a backslash (line continuation)
+// or ends in `]]` / a `let` expression (optionally + comment), whose newline is lexed while
+// preNested has the pending here-document buried.  In both cases the entry point itself
+// (Parse/StmtsSeq) reads the body after `stmts` has returned, outside every openNodes bracket.
+//   heredoc-buried-newline    — the last line is of the `]]`/let kind
+//   heredoc-line-continuation — the prefix ends in backslash-newline
+func c10Class(prefix string, err error) string {
+	pos, _, ok := c10ErrPos(err)
+	if !ok || !strings.Contains(err.Error(), "unclosed here-document") || !pos.IsValid() {
+		return ""
+	}
+	lines := strings.Split(strings.TrimSuffix(prefix, "\n"), "\n")
+	if int(pos.Line()) < 1 || int(pos.Line()) > len(lines) {
+		return ""
+	}
+	for _, l := range lines[pos.Line()-1:] {
+		if !strings.HasSuffix(l, "\\") && !c10BuriedRe.MatchString(l) {
+			return ""
+		}
+	}
+	if strings.HasSuffix(lines[len(lines)-1], "\\") {
+		return "heredoc-line-continuation"
+	}
+	return "heredoc-buried-newline"
+}
+
+// c10CutKind names what was open at an incomplete cut, from the error text.
+func c10CutKind(prefix string, err error) string {
+	t := err.Error()
+	switch {
+	case strings.Contains(t, "unclosed here-document"):
+		if regexp.MustCompile(`<<-?\s*['"\\]`).MatchString(prefix) {
+			return "heredoc-quoted"
+		}
+		return "heredoc"
+	case strings.Contains(t, "without closing quote `'`"):
+		return "squote"
+	case strings.Contains(t, "without closing quote `\"`"):
+		return "dquote"
+	case strings.Contains(t, "without closing quote"):
+		return "backquote"
+	case strings.Contains(t, "without matching `$((`"), strings.Contains(t, "without matching `((`"), strings.Contains(t, "without matching `$[`"):
+		return "arith"
+	case strings.Contains(t, "without matching `$(`"), strings.Contains(t, "without matching `<(`"), strings.Contains(t, "without matching `>(`"):
+		return "cmdsubst"
+	case strings.Contains(t, "without matching `${`"):
+		return "paramexp"
+	case strings.Contains(t, "without matching `[[`"), strings.Contains(t, "`[[` must be followed"):
+		return "test"
+	case strings.Contains(t, "without matching `(`"):
+		return "paren-or-array"
+	case strings.Contains(t, "without matching `{`"):
+		return "block"
+	case strings.Contains(t, "`case`"), strings.Contains(t, "case "):
+		return "case"
+	case strings.Contains(t, "`if`"), strings.Contains(t, "`then`"), strings.Contains(t, "`elif`"), strings.Contains(t, "`else`"):
+		return "if"
+	case strings.Contains(t, "`for`"), strings.Contains(t, "`while`"), strings.Contains(t, "`until`"), strings.Contains(t, "`do`"), strings.Contains(t, "`select`"), strings.Contains(t, "for foo"):
+		return "loop"
+	case strings.Contains(t, "`&&`"), strings.Contains(t, "`||`"), strings.Contains(t, "`|`"), strings.Contains(t, "`|&`"):
+		return "binary-cmd"
+	case strings.Contains(t, "foo()"), strings.Contains(t, "function"):
+		return "funcdecl"
+	}
+	return "other"
+}
+
+type c10CutFail struct {
+	cut int
+	err error
+}
+
+// c10Cuts checks clause 2 on one valid program; returns the failing cuts and updates the histogram.
+func c10Cuts(src string, lang syntax.LangVariant, hist map[string]int) (fails []c10CutFail, cuts int) {
+	for i := 0; i < len(src); i++ {
+		if src[i] != '\n' {
+			continue
+		}
+		prefix := src[:i+1]
+		cuts++
+		_, perr, pn := parseIn(prefix, lang, syntax.KeepComments(true))
+		if pn != "" {
+			continue // C06's business
+		}
+		switch {
+		case perr == nil:
+			if hist != nil {
+				hist["prefix-ok"]++
+				if strings.HasSuffix(prefix, "\\\n") {
+					hist["cut:line-continuation"]++
 				}
 			}
-			if !closed {
-				return "quoted-heredoc-open"
+		case syntax.IsIncomplete(perr):
+			if hist != nil {
+				hist["prefix-incomplete"]++
+				hist["cut:"+c10CutKind(prefix, perr)]++
+			}
+		default:
+			fails = append(fails, c10CutFail{i + 1, perr})
+		}
+	}
+	return fails, cuts
+}
+
+// c10Minimize shrinks a valid program that has a failing cut, keeping both properties.
+func c10Minimize(src string, lang syntax.LangVariant, class string) string {
+	bad := func(s string) bool {
+		f, err, pn := parseIn(s, lang, syntax.KeepComments(true))
+		if pn != "" || err != nil || f == nil {
+			return false
+		}
+		fails, _ := c10Cuts(s, lang, nil)
+		for _, fl := range fails {
+			if c10Class(s[:fl.cut], fl.err) == class {
+				return true
+			}
+		}
+		return false
+	}
+	evals := 0
+	for chunk := len(src) / 2; chunk >= 1; chunk /= 2 {
+		for i := 0; i+chunk <= len(src) && evals < 600; {
+			cand := src[:i] + src[i+chunk:]
+			evals++
+			if bad(cand) {
+				src = cand
+			} else {
+				i += chunk
 			}
 		}
 	}
-	return ""
+	return src
+}
+
+// c10LineCol computes the 1-based line and byte column of an offset.
+func c10LineCol(src string, off int) (line, col int) {
+	line, col = 1, 1
+	for i := 0; i < off && i < len(src); i++ {
+		if src[i] == '\n' {
+			line++
+			col = 1
+		} else {
+			col++
+		}
+	}
+	return
+}
+
+// c10PlainForCols: sources on which line/column can be judged independently of the position
+// defects already recorded under C09 (K1 backslash-CR-LF, K2 positions taken on an escaped
+// newline, K4 dropped NUL bytes, K8 final backslash) and of the documented column skew of
+// escapes inside backquotes (TestPosEdgeCases).
+func c10PlainForCols(src string) bool {
+	if strings.ContainsAny(src, "\x00\r") || strings.Contains(src, "\\\n") || strings.HasSuffix(src, "\\") {
+		return false
+	}
+	if strings.Contains(src, "`") && strings.Contains(src, "\\") {
+		return false
+	}
+	return true
+}
+
+// c10Utf8BadByte is the offset of the first byte that does not start a valid UTF-8 sequence.
+func c10Utf8BadByte(src string) int {
+	for i := 0; i < len(src); {
+		r, w := utf8.DecodeRuneInString(src[i:])
+		if r == utf8.RuneError && w == 1 {
+			return i
+		}
+		i += w
+	}
+	return len(src)
+}
+
+// c10CheckPos is clause 1 on one error.
+func c10CheckPos(c *Ctx, where, src string, lang syntax.LangVariant, err error) {
+	pos, kind, ok := c10ErrPos(err)
+	if !ok {
+		c.Hist["error-not-ParseError-or-LangError"]++
+		return
+	}
+	c.Hist["error-positions-checked"]++
+	c.Hist["error-kind:"+kind]++
+	if p := safely(func() { _ = err.Error() }); p != "" {
+		c.Fail(fmt.Sprintf("errpos %s %s %s", where, langName(lang), hx(src)), "Error() panics: "+p)
+	}
+	if !pos.IsValid() {
+		c.Hist["error-with-invalid-position"]++
+		c.Fail(fmt.Sprintf("errpos %s %s %s", where, langName(lang), hx(src)), fmt.Sprintf("error carries an invalid position: %v", err))
+		return
+	}
+	off := int(pos.Offset())
+	if off > len(src) {
+		c.Fail(fmt.Sprintf("errpos %s %s %s", where, langName(lang), hx(src)), fmt.Sprintf("error position offset %d is outside the %d-byte input: %v", off, len(src), err))
+		return
+	}
+	if off == len(src) {
+		c.Hist["error-at-end-of-input"]++
+	}
+	if c10PlainForCols(src) {
+		l, col := c10LineCol(src, off)
+		c.Hist["error-linecol-checked"]++
+		if int(pos.Line()) != l || int(pos.Col()) != col {
+			if strings.HasSuffix(err.Error(), "invalid UTF-8 encoding") {
+				// known class: Parser.rune reports the error before updating p.w, so the offset is
+				// computed with the width of the previous rune (0 at the start, 2–4 after a
+				// multi-byte rune); line and column are right
+				if l2, c2 := c10LineCol(src, c10Utf8BadByte(src)); int(pos.Line()) == l2 && int(pos.Col()) == c2 {
+					c.Fail("errpos-class invalid-utf8-offset", fmt.Sprintf("error position %d:%d does not agree with its offset %d (= %d:%d): %v [e.g. %s %s]", pos.Line(), pos.Col(), off, l, col, err, langName(lang), hx(src)))
+					return
+				}
+			}
+			c.Fail(fmt.Sprintf("errpos %s %s %s", where, langName(lang), hx(src)), fmt.Sprintf("error position %d:%d does not agree with its offset %d (= %d:%d): %v", pos.Line(), pos.Col(), off, l, col, err))
+		}
+	}
 }
 
 func c10(c *Ctx) {
-	c.Rule = "valid programs (the repository's own test inputs that parse, grammar-generated programs with heredocs/quotes/compound commands) × every variant they parse in × every line-boundary cut; plus invalid inputs (mutations) for the error-position clause; " +
+	c.Rule = "valid programs (the repository's own test inputs that parse, grammar-generated programs, ~190 multi-line templates covering every construct that can be open at a line end, composed and wrapped, generated here-document lines) × every variant they parse in × every line-boundary cut; invalid inputs (mutations, truncations at arbitrary bytes, random bytes; all entry points) for the error-position clause; " +
 		"non-trivial = program with ≥ 2 lines; distinct by (variant, source)"
 	seeds := repoSeeds()
-	var srcs []string
+	type prog struct {
+		src  string
+		kind string
+	}
+	var srcs []prog
 	for _, l := range c.CorpusLines() {
 		f := strings.Fields(l)
-		srcs = append(srcs, unhx(f[len(f)-1]))
+		srcs = append(srcs, prog{unhx(f[len(f)-1]), "corpus"})
 	}
-	for i := 0; i < c.N/2; i++ {
-		srcs = append(srcs, seeds[c.R.Intn(len(seeds))])
+	if c.Shard == 0 {
+		for _, t := range c10Templates {
+			srcs = append(srcs, prog{t, "template"})
+		}
 	}
-	for i := 0; i < c.N/2; i++ {
+	for i := 0; i < c.N/4; i++ {
+		srcs = append(srcs, prog{seeds[c.R.Intn(len(seeds))], "repo-seed"})
+	}
+	for i := 0; i < c.N/4; i++ {
 		g := newProgGen(c.R, c.R.Chance(70))
-		srcs = append(srcs, g.Program(1+c.R.Intn(4)))
+		srcs = append(srcs, prog{g.Program(1 + c.R.Intn(4)), "grammar"})
 	}
-	cuts := 0
-	for _, src := range srcs {
+	for i := 0; i < c.N/2; i++ {
+		srcs = append(srcs, prog{c10Multi(c.R), "multi"})
+	}
+	type res struct {
+		valid  []syntax.LangVariant
+		fails  map[syntax.LangVariant][]c10CutFail
+		hist   map[string]int
+		cuts   int
+		errs   map[syntax.LangVariant]error
+		seqDif string
+	}
+	results := parallelMap(len(srcs), 4, func(i int) res {
+		src := srcs[i].src
+		out := res{fails: map[syntax.LangVariant][]c10CutFail{}, hist: map[string]int{}, errs: map[syntax.LangVariant]error{}}
 		for _, lang := range allLangs {
 			f, err, pn := parseIn(src, lang, syntax.KeepComments(true))
 			if pn != "" {
 				continue // C06's business
 			}
 			if err != nil || f == nil {
-				// clause 1: error position inside the input
-				if pos, ok := c10ErrPos(err); ok {
-					c.Hist["error-positions-checked"]++
-					if pos.IsValid() && int(pos.Offset()) > len(src) {
-						c.Fail("errpos "+langName(lang)+" "+hx(src), fmt.Sprintf("error position offset %d is outside the %d-byte input: %v", pos.Offset(), len(src), err))
-					}
-					if !pos.IsValid() {
-						c.Hist["error-with-invalid-position"]++
-					}
-				}
+				out.errs[lang] = err
 				continue
 			}
-			nl := strings.Count(src, "\n")
-			c.Case(langName(lang)+"\x00"+src, nl >= 2, "lang="+langName(lang))
-			// clause 2: every cut after a newline
-			for i := 0; i < len(src); i++ {
-				if src[i] != '\n' {
-					continue
-				}
-				prefix := src[:i+1]
-				cuts++
-				_, perr, pn := parseIn(prefix, lang, syntax.KeepComments(true))
-				if pn != "" {
-					continue
-				}
-				if perr == nil || syntax.IsIncomplete(perr) {
-					if perr != nil {
-						c.Hist["prefix-incomplete"]++
-					} else {
-						c.Hist["prefix-ok"]++
-					}
-					continue
-				}
-				w := fmt.Sprintf("prefix %s %d %s", langName(lang), i+1, hx(src))
-				if cl := c10Class(prefix); cl != "" {
-					w = "prefix-class " + cl
-				}
-				c.Fail(w, fmt.Sprintf("prefix of a valid program cut after line ending at byte %d fails with a non-incomplete error: %v", i+1, perr))
+			out.valid = append(out.valid, lang)
+			fl, n := c10Cuts(src, lang, out.hist)
+			out.cuts += n
+			if len(fl) > 0 {
+				out.fails[lang] = fl
 			}
 		}
-	}
-	// invalid inputs for clause 1
-	for i := 0; i < c.N; i++ {
-		src := c06MutateLite(c.R, seeds[c.R.Intn(len(seeds))])
-		lang := allLangs[c.R.Intn(len(allLangs))]
-		_, err, pn := parseIn(src, lang)
-		if pn != "" || err == nil {
-			continue
+		return out
+	})
+	cuts := 0
+	for i, r := range results {
+		src := srcs[i].src
+		cuts += r.cuts
+		for k, v := range r.hist {
+			c.Hist[k] += v
 		}
-		if pos, ok := c10ErrPos(err); ok {
-			c.Hist["error-positions-checked"]++
-			if pos.IsValid() && int(pos.Offset()) > len(src) {
-				c.Fail("errpos "+langName(lang)+" "+hx(src), fmt.Sprintf("error position offset %d is outside the %d-byte input: %v", pos.Offset(), len(src), err))
+		for lang, err := range r.errs {
+			c10CheckPos(c, "Parse", src, lang, err)
+		}
+		for _, lang := range r.valid {
+			nl := strings.Count(src, "\n")
+			tags := []string{"lang=" + langName(lang), "src=" + srcs[i].kind}
+			if strings.Contains(src, "<<") && !strings.Contains(src, "<<<") {
+				tags = append(tags, "has-heredoc")
+			}
+			c.Case(langName(lang)+"\x00"+src, nl >= 2, tags...)
+		}
+		for lang, fl := range r.fails {
+			for _, f := range fl {
+				w := fmt.Sprintf("prefix %s %d %s", langName(lang), f.cut, hx(src))
+				what := fmt.Sprintf("prefix of a valid program cut after the line ending at byte %d fails with a non-incomplete error: %v", f.cut, f.err)
+				if cl := c10Class(src[:f.cut], f.err); cl != "" {
+					w = "prefix-class " + cl
+					if !c10HasFailure(c, w) {
+						m := c10Minimize(src, lang, cl)
+						what += fmt.Sprintf(" [e.g. %s %q]", langName(lang), m)
+					}
+				}
+				c.Fail(w, what)
 			}
 		}
 	}
 	c.Extra["cuts"] = cuts
-	// ---- tie for the here-document incompleteness model (Model/C10.lean) ----
+
+	// ---- clause 1 on invalid inputs, every entry point ----
+	type job struct {
+		src   string
+		lang  syntax.LangVariant
+		entry int
+	}
+	var jobs []job
+	for i := 0; i < c.N; i++ {
+		r := c.R
+		var src string
+		switch k := r.Intn(10); {
+		case k < 4:
+			src = c10MutateLite(r, seeds[r.Intn(len(seeds))])
+		case k < 6:
+			s := c10Multi(r)
+			src = s[:r.Intn(len(s)+1)] // truncated at an arbitrary byte
+		case k < 8:
+			src = c10MutateLite(r, c10Multi(r))
+		case k < 9:
+			b := make([]byte, r.Intn(24))
+			for j := range b {
+				b[j] = c10Alphabet[r.Intn(len(c10Alphabet))]
+			}
+			src = string(b)
+		default:
+			src = c10MutateLite(r, newProgGen(r, true).Program(1+r.Intn(3)))
+		}
+		e := 0
+		if r.Chance(40) {
+			e = 1 + r.Intn(5)
+		}
+		jobs = append(jobs, job{src, allLangs[r.Intn(len(allLangs))], e})
+	}
+	type perr struct {
+		err error
+		pn  string
+	}
+	entries := []string{"Parse", "StmtsSeq", "WordsSeq", "InteractiveSeq", "Document", "Arithmetic"}
+	errs := parallelMap(len(jobs), 4, func(i int) perr {
+		j := jobs[i]
+		var out perr
+		out.pn = safely(func() {
+			ps := syntax.NewParser(syntax.Variant(j.lang))
+			rd := strings.NewReader(j.src)
+			switch j.entry {
+			case 0:
+				_, out.err = ps.Parse(rd, "")
+			case 1:
+				for _, err := range ps.StmtsSeq(rd) {
+					if err != nil {
+						out.err = err
+						break
+					}
+				}
+			case 2:
+				for _, err := range ps.WordsSeq(rd) {
+					if err != nil {
+						out.err = err
+						break
+					}
+				}
+			case 3:
+				for _, err := range ps.InteractiveSeq(rd) {
+					if err != nil {
+						out.err = err
+						break
+					}
+				}
+			case 4:
+				_, out.err = ps.Document(rd)
+			case 5:
+				_, out.err = ps.Arithmetic(rd)
+			}
+		})
+		return out
+	})
+	for i, e := range errs {
+		if e.pn != "" || e.err == nil {
+			continue
+		}
+		c10CheckPos(c, entries[jobs[i].entry], jobs[i].src, jobs[i].lang, e.err)
+	}
+
+	// ---- tie 1: one here-document body (Model/C10.lean scan) ----
 	words := []string{"foo", "a b", "EOF", "E", " x", "x ", "", "EOFX", "eof", "12", "\tq"}
 	for i := 0; i < c.N/2; i++ {
 		r := c.R
@@ -147,7 +598,6 @@ func c10(c *Ctx) {
 		var lines []string
 		for j := 0; j < nl; j++ {
 			l := r.Pick(words)
-			l = strings.ReplaceAll(l, "\\t", "\t")
 			if tabs && r.Bool() {
 				l = "\t" + l
 			}
@@ -203,15 +653,54 @@ func c10(c *Ctx) {
 		if tabs {
 			bt = "1"
 		}
-		c.Op(strings.TrimSpace("hdoc "+bq+" "+bt+" "+hx(stop)+" "+hxs(lines)), got)
+		// the body is read from inside the statement: one bracket open
+		c.Op(strings.TrimSpace("hdoc "+bq+" "+bt+" 1 "+hx(stop)+" "+hxs(lines)), got)
+	}
+	// ---- tie 2: which newline reads the bodies (Model/C10.lean prefixFlag) ----
+	for i := 0; i < c.N/2; i++ {
+		h := c10HdocGen(c.R, true)
+		// the prefix: the `<<` line and the body lines, no stop line
+		src := h.line + "\n"
+		for _, b := range h.body {
+			src += b + "\n"
+		}
+		_, err, pn := parseIn(src, syntax.LangBash)
+		got := ""
+		switch {
+		case pn != "":
+			got = "panic"
+		case err == nil:
+			got = "none"
+		case strings.Contains(err.Error(), "unclosed here-document"):
+			got = fmt.Sprintf("unclosed %v", syntax.IsIncomplete(err))
+		default:
+			got = "other-error " + err.Error()
+		}
+		bq := "0"
+		if h.quoted {
+			bq = "1"
+		}
+		c.Hist["sched-items:"+strings.NewReplacer("t", "").Replace(h.items)]++
+		c.Op(strings.TrimSpace("sched "+bq+" "+h.items+" "+hx(h.stop)+" "+hxs(h.body)), got)
 	}
 }
 
-func c06MutateLite(r *Rand, s string) string {
+const c10Alphabet = "'\"`$(){}[]<>|&;\\\n#ab =!*?~\t\x00\xc3\xa9\xff"
+
+func c10HasFailure(c *Ctx, w string) bool {
+	for _, f := range c.Failures {
+		if f.Witness == w {
+			return true
+		}
+	}
+	return false
+}
+
+func c10MutateLite(r *Rand, s string) string {
 	b := []byte(s)
 	for k, n := 0, 1+r.Intn(2); k < n && len(b) > 0; k++ {
 		i := r.Intn(len(b))
-		switch r.Intn(4) {
+		switch r.Intn(5) {
 		case 0:
 			b = append(b[:i], b[i+1:]...)
 		case 1:
@@ -220,8 +709,11 @@ func c06MutateLite(r *Rand, s string) string {
 		case 2:
 			b = b[:i]
 		case 3:
-			toks := []string{"$(", "${", "((", "[[", "`", "\"", "'", "fi", "done", "}", ")", "esac", ";;", "&&"}
+			toks := []string{"$(", "${", "((", "[[", "`", "\"", "'", "fi", "done", "}", ")", "esac", ";;", "&&", "$((", "a=(", "<<E\n", "${a[", "\xff", "é"}
 			b = append(b[:i], append([]byte(toks[r.Intn(len(toks))]), b[i:]...)...)
+		case 4:
+			j := r.Intn(len(b))
+			b[i], b[j] = b[j], b[i]
 		}
 	}
 	return string(b)
